@@ -59,6 +59,7 @@ def run(ctx, rep):
     r2(ctx, rep)
     r3(ctx, rep)
     r5(ctx, rep)
+    r6(ctx, rep)
 
 
 def r0(ctx, rep):
@@ -345,3 +346,40 @@ def r5(ctx, rep):
                 if not ok:
                     rep.finding(R5, f'C06.R5/{rc.short}/serial', m.floc(sch.fn), rc.short, 'serial successor is not branch.new_world()')
     rep.floor('C06.R5', 'witness/instance rule classes', n, 35)
+
+
+def r6(ctx, rep):
+    """Which rules *are* witness rules is a semantic matter: a quantifier / modal slot whose schema only instantiates
+    existing items must be sound under that reading; where it is not, the node's truth condition needs a witness and
+    the rule has to take branch.new_constant() / new_world()."""
+    m = ctx.m
+    R6 = rep.rule('C06.R6', 'every quantifier / modal slot whose truth condition calls for a witness (instantiating existing items alone '
+                            'is unsound over the logic\'s extracted semantics) has a fresh item in its schema')
+    n = nw = 0
+    for s in common.slots(ctx):
+        if s.kind not in ('quantifier', 'modal') or s.sch is None:
+            continue
+        kinds, worlds = set(), set()
+        for br in s.sch.branches:
+            for it in br:
+                if it.kind == 'sent':
+                    kinds |= const_kinds(it.s)
+                    worlds.add(it.w)
+                else:
+                    worlds |= {it.w1, it.w2}
+        fresh = C_FRESH in kinds or W_FRESH in worlds
+        existing = C_ANY in kinds or W_EACH in worlds
+        n += 1
+        nw += fresh
+        # valuations holding both N and B are left to C01/C03/C04: there the FDE-family rules fail for another
+        # reason (finding F6, the value order on N/B), which says nothing about witnesses
+        unsound = [v for d, v in s.fails if d == 'unsound' and not ('N' in str(v) and 'B' in str(v))]
+        ok = fresh or not (existing and unsound)
+        rep.instance(R6, ok=ok, nontrivial=(s.lg.name, s.rc.name, 'fresh' if fresh else 'existing' if existing else 'plain'))
+        if not ok:
+            rep.finding(R6, f'C06.R6/{s.lg.name}/{s.rc.name}', m.floc(s.sch.fn), f'{s.lg.name}:{s.rc.short}',
+                        f'rule {s.rc.name} of {s.lg.name} instantiates only items already on the branch [{s.sch.show()}], but the node can be '
+                        f'satisfied with no existing instance satisfying the extension (e.g. valuation {unsound[0]}): it is a witness rule and '
+                        f'must use a fresh item')
+    rep.floor('C06.R6', 'quantifier/modal slots', n, 700)
+    rep.floor('C06.R6', 'witness slots (fresh item in schema)', nw, 350)
